@@ -5,5 +5,6 @@ Recs == ndJsonDeserialize(IOEnv.RECS)
 InitV == done = FALSE /\ inv = 0 /\ phase = "" /\ status = 0 /\ diag = FALSE /\ created = {} /\ modified = {} /\ targetIsBinary = FALSE
 LibNextV == ~done /\ done' = TRUE /\ UNCHANGED vars /\ ndJsonSerialize(IOEnv.OUT, <<[n |-> Len(Recs),
                  bad |-> SelectSeq([k \in 1..Len(Recs) |-> IF LibConforms(Recs[k].obs) THEN -1 ELSE k - 1], LAMBDA x : x >= 0)]>>)
+ActNextV == ~done /\ done' = TRUE /\ UNCHANGED vars /\ ndJsonSerialize(IOEnv.OUT, [k \in 1..Len(Recs) |-> [id |-> Recs[k].id, ok |-> ActionsConform(Recs[k].tool, Recs[k].res, Recs[k].bin)]])
 NextV == ~done /\ done' = TRUE /\ UNCHANGED vars /\ ndJsonSerialize(IOEnv.OUT, [k \in 1..Len(Recs) |-> [id |-> Recs[k].id, ok |-> Conforms(Recs[k].inv, Recs[k].obs)]])
 =============================================================================
